@@ -588,11 +588,17 @@ Section Refinement.
   Qed.
 
   (** ** reopen *)
+  Lemma reopen_bf_of sp : reopen_bf (spec_meta sp) (bf_of sp) = bf_of sp.
+  Proof.
+    unfold reopen_bf. rewrite bf_repair_of. unfold bf_blocks. rewrite bf_min_of, spec_meta_height.
+    destruct (tlen sp =? tlen sp + 1) eqn:E; [lia|reflexivity].
+  Qed.
+
   Lemma reopen_refines s sp j : refines s sp ->
-    refines (mkCL (bf_repair (cl_bf s)) (cl_ix s) (load_meta (cl_ix s)) j) sp.
+    refines (mkCL (reopen_bf (load_meta (cl_ix s)) (cl_bf s)) (cl_ix s) (load_meta (cl_ix s)) j) sp.
   Proof.
     intros [B M L I]. constructor; cbn [cl_bf cl_ix cl_mem].
-    - rewrite B. apply bf_repair_of.
+    - rewrite B, L. apply reopen_bf_of.
     - exact L.
     - exact L.
     - exact I.
